@@ -373,7 +373,7 @@ fn spec(t: Tier) -> Spec {
     Spec {
         id: "C04",
         level: "model_checking",
-        rule: format!("{} configurations (mode in none,-n1,-n2,-n3,-L1,-L2,'-n2 -L1','-L2 -n1' x -s in absent, base+k x -x x -r x initial args); for each an explicit-state BFS over the implementation's own batching state (hook H3 snapshot: every limiter's counters, lengths of the batch under construction, pending flag, sticky result; plus the reader's unconsumed terminator) from the empty history, input symbols = argument in {{1,2,3,6 ASCII bytes, 'é' (2 bytes, 1 character), the empty argument written \"\"}} x terminator in {{blank, newline, blank+newline}}; a state seen before is not expanded; every expanded history is run to EOF through the real xargs_main and its invocations (hook H2) compared with the reference greedy batcher (lossless, in order, command+initial args unchanged, -n/-L/-s respected simultaneously, maximal, empty-input rule, fatal overflow rule); configurations whose state space is finite are explored to closure, the unbounded ones (no -s and no -n) to depth {}; plain enumeration without hashing to depth {} cross-checks the canonicalisation; binary slice: all histories <= {} for 8 configurations through the xargs binary and a recorder child", configs(t).len(), t.pick(3, 4), t.pick(2, 3), t.pick(2, 3)),
+        rule: format!("{} configurations (mode in none,-n1,-n2,-n3,-L1,-L2,'-n2 -L1','-L2 -n1' x -s in absent, base+k x -x x -r x initial args); for each an explicit-state BFS over the implementation's own batching state (hook H3 snapshot: every limiter's counters, lengths of the batch under construction, pending flag, sticky result; plus the reader's unconsumed terminator) from the empty history, input symbols = argument in {{1,2,3,6 ASCII bytes, 'é' (2 bytes, 1 character), the empty argument written \"\"}} x terminator in {{blank, newline, blank+newline}}; a state seen before is not expanded; every expanded history is run to EOF through the real xargs_main and its invocations (hook H2) compared with the reference greedy batcher (lossless, in order, command+initial args unchanged, -n/-L/-s respected simultaneously, maximal, empty-input rule, fatal overflow rule); configurations whose state space is finite are explored to closure, the unbounded ones (no -s and no -n) to depth {}; plain enumeration without hashing to depth {} cross-checks the canonicalisation; scale slice: inputs of 100, 1000 and 5000 arguments (lengths cycling 1..13 bytes, é and empty arguments interspersed, lines of 1..5 arguments, some ending in a blank) under -n 7|64|1000, -L 3|100, both orders of -n/-L, -s base+50|1000|5000|100000, -x on/off, with/without initial arguments, each end to end against the reference batcher; binary slice: all histories <= {} for 8 configurations through the xargs binary and a recorder child", configs(t).len(), t.pick(3, 4), t.pick(2, 3), t.pick(2, 3)),
         bound: json!({"configs": configs(t).len(), "symbols": 18, "closure_depth_cap": 12, "unbounded_depth": t.pick(3, 4)}),
         assumptions: vec![
             "when -n and -L are both given the one given last decides (they are mutually exclusive)".into(),
@@ -402,8 +402,76 @@ fn run(ctx: &mut Ctx) {
             ctx.rep.sample(json!({"config": cfg.describe(), "argv": cfg.argv("FILE"), "example_history": "2_ 1$ 6_$  (length + terminator: _ blank, $ newline)"}));
         }
     }
+    scale_slice(ctx);
     binary_slice(ctx);
     let _ = std::fs::remove_file(ctx.sbx.join(".mc-xin"));
+}
+
+/// Inputs far longer than the state-space search reaches: N = 100, 1000, 5000 arguments (lengths
+/// cycling through 1..13 bytes, every 11th the 2-byte é, every 17th empty (""), terminators cycling
+/// blank / newline / blank+newline with lines of 1..5 arguments) under limits that only bind after many
+/// arguments: -n 7|64|1000, -L 3|100, -s base+50|1000|5000|100000, -x on/off, with and without
+/// initial arguments; each run end to end against the reference batcher.
+fn scale_slice(ctx: &mut Ctx) {
+    let file = ctx.sbx.join(".mc-xin");
+    let modes = [Mode::None, Mode::N(7), Mode::N(64), Mode::N(1000), Mode::L(3), Mode::L(100), Mode::Both(64, 3, true), Mode::Both(3, 64, false)];
+    let deltas = [None, Some(50usize), Some(1000), Some(5000), Some(100_000)];
+    let mut job = 0u64;
+    for n in [100usize, 1000, 5000] {
+        let mut bytes: Vec<u8> = vec![];
+        let mut toks: Vec<(Vec<u8>, Term)> = vec![];
+        for i in 0..n {
+            let arg: Vec<u8> = if i % 17 == 16 {
+                vec![]
+            } else if i % 11 == 10 {
+                "\u{e9}".as_bytes().to_vec()
+            } else {
+                vec![b'a' + (i % 26) as u8; 1 + (i * 7) % 13]
+            };
+            if arg.is_empty() {
+                bytes.extend_from_slice(b"\"\"");
+            } else {
+                bytes.extend_from_slice(&arg);
+            }
+            // lines of 1..5 arguments; every third line ends in a blank before the newline
+            let line_len = 1 + (i / 5) % 5;
+            let ends_line = i % line_len == line_len - 1;
+            let term = if !ends_line {
+                " "
+            } else if (i / 3) % 3 == 0 {
+                " \n"
+            } else {
+                "\n"
+            };
+            bytes.extend_from_slice(term.as_bytes());
+            toks.push((arg, if term == "\n" { Term::Hard } else { Term::Soft }));
+        }
+        for mode in &modes {
+            for d in deltas {
+                for x in [false, true] {
+                    for initial in [vec![], vec!["ii", "j"]] {
+                        job += 1;
+                        if job % ctx.nshards != ctx.shard {
+                            continue;
+                        }
+                        let cfg = Cfg { mode: mode.clone(), s_delta: d, x, r: false, initial };
+                        std::fs::write(&file, &bytes).unwrap();
+                        let av = cfg.argv(file.to_str().unwrap());
+                        let args: Vec<&str> = av.iter().map(|s| s.as_str()).collect();
+                        let got = run_xargs(&args, &mut |_, _| Outcome::Exit(0));
+                        ctx.rep.evaluations += 1;
+                        ctx.rep.nontrivial += 1;
+                        ctx.rep.count("scale_runs", 1);
+                        ctx.rep.count("scale_invocations_checked", got.inv.len() as u64);
+                        if let Some((sig, detail)) = judge(&cfg, &toks, &got) {
+                            let d = if detail.len() > 1200 { format!("{}...", detail.chars().take(1200).collect::<String>()) } else { detail };
+                            ctx.rep.violation(&sig, format!("scale slice: {n} arguments, config {} (argv xargs {:?})\n {d}", cfg.describe(), cfg.argv("FILE")), json!({"prop":"C04","scale":true}));
+                        }
+                    }
+                }
+            }
+        }
+    }
 }
 
 fn binary_slice(ctx: &mut Ctx) {
@@ -427,7 +495,7 @@ fn binary_slice(ctx: &mut Ctx) {
         if h.len() == maxlen {
             return;
         }
-        for li in 0..5u8 {
+        for li in 0..LENS.len() as u8 {
             for ti in 0..3u8 {
                 h.push((li, ti));
                 out.push(h.clone());
@@ -492,6 +560,15 @@ fn replay(case: &Value, ctx: &mut Ctx) -> Option<String> {
     if case["binary"] == true {
         println!("binary-level cases are replayed by re-running the check");
         return None;
+    }
+    if case["scale"] == true {
+        let (s0, n0) = (ctx.shard, ctx.nshards);
+        ctx.shard = 0;
+        ctx.nshards = 1;
+        scale_slice(ctx);
+        ctx.shard = s0;
+        ctx.nshards = n0;
+        return ctx.rep.violations.keys().next().cloned();
     }
     let (cfg, h) = cfg_from_json(case)?;
     let file = ctx.sbx.join(".mc-xin");
